@@ -15,6 +15,7 @@ Alpha == Sends(TRUE) \o Sends(FALSE) \o <<
   SendA(2, 0, 1, 0, Pb, TRUE), Send_(255, 255, 3, 20, PEmpty, TRUE), Send_(2, 0, 1, 1, Pb, TRUE),
   SendF(1, 255, 3, 13, PEmpty, TRUE), SendF(1, 0, 1, 0, Pa, TRUE),
   Recv_(2, 255, 3, 22, P1), Recv_(2, 255, 3, 32, PEmpty), Recv_(1, 255, 3, 22, P1), Recv_(2, 255, 3, 0, P57),
+  Recv_(2, 255, 0, 17, P20),                                           \* the sleeping node presents itself again
   RecvF(2, 255, 3, 22, P1, "rel", 1), RecvF(2, 255, 3, 32, PEmpty, "rel", 1),   \* a write fault while releasing
   Junk_("str"), Junk_("none"), Junk_("int"), Junk_("object"), Junk_("dictmissing"),
   Cycle_
